@@ -34,13 +34,13 @@ import (
 var ctx = context.Background()
 
 const (
-	repoName              = "c14/repo"
-	mediaTypeArtifact     = "application/vnd.oci.artifact.manifest.v1+json"
-	hookCommitted         = "syncutil.merge.committed"
-	phaseSetup      int32 = 0
-	phaseDetect     int32 = 1
-	phaseRun        int32 = 2
-	phaseQuiescent  int32 = 3
+	repoName                = "c14/repo"
+	mediaTypeArtifact       = "application/vnd.oci.artifact.manifest.v1+json"
+	hookCommitted           = "syncutil.merge.committed"
+	phaseSetup        int32 = 0
+	phaseDetect       int32 = 1
+	phaseRun          int32 = 2
+	phaseQuiescent    int32 = 3
 )
 
 // ---------------------------------------------------------------- hook
@@ -79,6 +79,7 @@ type subject struct {
 	Stored bool
 	Tag    string
 	Dirty  string // pre-existing index: "", "clean", "dup", "empty", "both"
+	Drain  bool   // every referrer of this subject is deleted again: the index ends up removed
 }
 
 type fault struct {
@@ -87,6 +88,10 @@ type fault struct {
 	How     string `json:"how"`
 	Fired   bool   `json:"fired"`
 	Tag     string `json:"tag,omitempty"`
+	// Emptied (iDEL only): the index whose DELETE was failed was still the one
+	// the tag pointed to, i.e. the batch had emptied the referrers list and
+	// pushed no new index: deleting the old index was the update itself.
+	Emptied bool `json:"emptied,omitempty"`
 }
 
 type opRec struct {
@@ -161,6 +166,7 @@ type round struct {
 	merged2   int
 	pending   int
 	dumps     int
+	emptying  int
 
 	subjects []*subject
 	refs     []*referrer
@@ -304,13 +310,31 @@ func (h *round) before(rec *regmodel.Record) *regmodel.Response {
 	if ri.Class == "iPUT" {
 		size = h.inspectPut(ri)
 	}
+	emptied := false
+	if ri.Class == "iDEL" {
+		target := digest.Digest(ri.Path[strings.LastIndex(ri.Path, "/")+1:])
+		h.reg.WithLock(func() {
+			if repo := h.reg.Repos[repoName]; repo != nil {
+				emptied = repo.Tags[ri.Tag] == target
+			}
+		})
+	}
 	h.mu.Lock()
 	h.ordinal[ri.Class]++
 	ord := h.ordinal[ri.Class]
+	ordE := -1
+	if emptied {
+		h.ordinal["iDELe"]++
+		ordE = h.ordinal["iDELe"]
+		h.emptying++
+	}
 	var hit *fault
 	for _, f := range h.faults {
-		if !f.Fired && f.Class == ri.Class && f.Ordinal == ord {
-			f.Fired, f.Tag = true, ri.Tag
+		if f.Fired {
+			continue
+		}
+		if (f.Class == ri.Class && f.Ordinal == ord) || (f.Class == "iDELe" && f.Ordinal == ordE) {
+			f.Fired, f.Tag, f.Emptied = true, ri.Tag, emptied
 			hit = f
 			break
 		}
@@ -604,7 +628,7 @@ func runCase(phase string, i int) worker.Result {
 		}
 		b, _ := json.Marshal(doc)
 		sd := ocispec.Descriptor{MediaType: mt, Digest: digest.FromBytes(b), Size: int64(len(b))}
-		sub := &subject{N: s, Desc: sd, Bytes: b, Stored: rng.IntN(3) > 0, Tag: "sha256-" + sd.Digest.Encoded()}
+		sub := &subject{N: s, Desc: sd, Bytes: b, Stored: rng.IntN(3) > 0, Tag: "sha256-" + sd.Digest.Encoded(), Drain: rng.IntN(3) == 0}
 		if sub.Stored {
 			h.reg.PutManifest(repoName, mt, b)
 		}
@@ -642,6 +666,9 @@ func runCase(phase string, i int) worker.Result {
 			r.Pre = true
 			r.Owner = rng.IntN(nWorkers)
 			r.Script = [][]string{{}, {}, {"delete"}, {"delete"}, {"delete", "push"}}[rng.IntN(5)]
+			if sub.Drain {
+				r.Script = []string{"delete"}
+			}
 			h.reg.PutManifest(repoName, r.Desc.MediaType, r.Bytes)
 			var e ocispec.Descriptor
 			json.Unmarshal(descJSON(r), &e)
@@ -680,6 +707,8 @@ func runCase(phase string, i int) worker.Result {
 			r.Script = scripts[rng.IntN(len(scripts))]
 			if subj < 0 {
 				r.Script = []string{"push"}
+			} else if h.subjects[subj].Drain {
+				r.Script = []string{"push", "delete"}
 			}
 		}
 	}
@@ -714,6 +743,10 @@ func runCase(phase string, i int) worker.Result {
 			}
 			h.faults = append(h.faults, &fault{Class: c, Ordinal: 1 + rng.IntN(8), How: hows[rng.IntN(len(hows))]})
 		}
+		if rng.IntN(2) == 0 {
+			// fail the DELETE of an index that is removed because its referrers list became empty
+			h.faults = append(h.faults, &fault{Class: "iDELe", Ordinal: 1 + rng.IntN(2), How: []string{"500", "405", "drop"}[rng.IntN(3)]})
+		}
 	}
 
 	h.srv = httptest.NewServer(h)
@@ -745,7 +778,7 @@ func runCase(phase string, i int) worker.Result {
 		}
 		subs := []map[string]any{}
 		for _, s := range h.subjects {
-			subs = append(subs, map[string]any{"n": s.N, "tag": s.Tag[:19], "stored": s.Stored, "pre_index": s.Dirty, "trace": strings.Join(h.traces[s.Tag], " ")})
+			subs = append(subs, map[string]any{"n": s.N, "tag": s.Tag[:19], "stored": s.Stored, "pre_index": s.Dirty, "drain": s.Drain, "trace": strings.Join(h.traces[s.Tag], " ")})
 		}
 		wit := map[string]any{"mode": mode, "skip_gc": skipGC, "cap_init": capInit, "workers": nWorkers, "readers": nReaders,
 			"subjects": subs, "faults": h.faults, "referrers": h.refs, "ops": ops, "flipped_at_clock": h.flipped.Load()}
@@ -902,14 +935,23 @@ func runCase(phase string, i int) worker.Result {
 	}
 	sort.Slice(all, func(a, b int) bool { return all[a].Call < all[b].Call })
 	nOK, nIdxDel, nErr := 0, 0, 0
-	firedOn := func(tag string, classes ...string) bool {
-		for _, f := range h.faults {
-			if f.Fired && f.Tag == tag {
-				for _, c := range classes {
-					if f.Class == c {
-						return true
-					}
-				}
+	h.mu.Lock()
+	faultsNow := append([]*fault{}, h.faults...)
+	h.mu.Unlock()
+	// explained: an index-delete error needs a failed DELETE of a superseded index (a new index was
+	// in place); any other error needs a failed index GET or PUT, or a failed DELETE that was itself
+	// the update (emptied referrers list, nothing pushed).
+	explained := func(tag, class string) bool {
+		for _, f := range faultsNow {
+			if !f.Fired || f.Tag != tag {
+				continue
+			}
+			isDel := f.Class == "iDEL" || f.Class == "iDELe"
+			if class == "idxdel" && isDel && !f.Emptied {
+				return true
+			}
+			if class == "err" && (f.Class == "iGET" || f.Class == "iPUT" || (isDel && f.Emptied)) {
+				return true
 			}
 		}
 		return false
@@ -941,13 +983,34 @@ func runCase(phase string, i int) worker.Result {
 		if o.Subj >= 0 {
 			tag = h.subjects[o.Subj].Tag
 		}
-		if o.Class == "idxdel" && !firedOn(tag, "iDEL") {
-			res.Violate("unexplained-index-delete-error", fmt.Sprintf("%s of referrer %d returned a referrers-index-delete error although no index DELETE for %.19s was made to fail: %s", o.Op, o.Ref, tag, o.Err), witness(nil))
+		if o.Class == "idxdel" && !explained(tag, "idxdel") {
+			res.Violate("unexplained-index-delete-error", fmt.Sprintf("%s of referrer %d returned a referrers-index-delete error although no DELETE of a superseded index for %.19s was made to fail: %s", o.Op, o.Ref, tag, o.Err), witness(nil))
 			break
 		}
-		if o.Class == "err" && !firedOn(tag, "iGET", "iPUT") {
-			res.Violate("unexplained-error", fmt.Sprintf("%s of referrer %d failed although no index GET/PUT for %.19s was made to fail: %s", o.Op, o.Ref, tag, o.Err), witness(nil))
+		if o.Class == "err" && !explained(tag, "err") {
+			res.Violate("unexplained-error", fmt.Sprintf("%s of referrer %d failed although no index GET/PUT (or index DELETE that was the update itself) for %.19s was made to fail: %s", o.Op, o.Ref, tag, o.Err), witness(nil))
 			break
+		}
+	}
+
+	// every failed index DELETE must have been reported to a caller on that tag: as a
+	// referrers-index-delete error when a new index was in place, as some error otherwise
+	if len(res.Viol) == 0 {
+		for _, f := range faultsNow {
+			if !f.Fired || (f.Class != "iDEL" && f.Class != "iDELe") {
+				continue
+			}
+			reported := false
+			for _, o := range all {
+				if o.Subj >= 0 && h.subjects[o.Subj].Tag == f.Tag && (o.Class == "idxdel" || (f.Emptied && o.Class == "err")) {
+					reported = true
+					break
+				}
+			}
+			if !reported {
+				res.Violate("index-delete-failure-not-reported", fmt.Sprintf("the DELETE of a referrers index of %.19s failed (injected %s) but no push or delete on that subject returned a referrers-index-delete error", f.Tag, f.How), witness(nil))
+				break
+			}
 		}
 	}
 
@@ -1023,11 +1086,11 @@ func runCase(phase string, i int) worker.Result {
 	judgedRefs := 0
 	if tagProtocol && len(res.Viol) == 0 {
 		var snap struct {
-			model    [][]ocispec.Descriptor
-			tagIndex [][]byte
+			model     [][]ocispec.Descriptor
+			tagIndex  [][]byte
 			tagDigest []digest.Digest
-			manifest map[digest.Digest]string
-			tagged   map[digest.Digest]bool
+			manifest  map[digest.Digest]string
+			tagged    map[digest.Digest]bool
 		}
 		h.reg.WithLock(func() {
 			repoM := h.reg.Repos[repoName]
@@ -1070,7 +1133,8 @@ func runCase(phase string, i int) worker.Result {
 			updated := h.putOK[s.Tag] > 0
 			h.mu.Unlock()
 			L := l.refs
-			if !updated && s.Dirty != "" && s.Dirty != "clean" {
+			untouchedDirty := !updated && s.Dirty != "" && s.Dirty != "clean"
+			if untouchedDirty {
 				// the client never rewrote this (dirty) pre-existing index: its
 				// duplicates and empty entries are not the client's doing
 				L = dedup(L)
@@ -1178,6 +1242,9 @@ func runCase(phase string, i int) worker.Result {
 					res.Violate("listing-failed", fmt.Sprintf("filtered listing failed: %v", err), witness(nil))
 					break
 				}
+				if untouchedDirty {
+					F = dedup(F)
+				}
 				var wantF []ocispec.Descriptor
 				for _, d := range L {
 					if d.ArtifactType == at || at == "" {
@@ -1258,6 +1325,7 @@ func runCase(phase string, i int) worker.Result {
 	res.Count("index_puts_merging_2plus", int64(h.merged2))
 	res.Count("changes_seen_in_pending_queue", int64(h.pending))
 	res.Count("index_puts_inspected", int64(h.dumps))
+	res.Count("index_deletes_that_were_the_update_itself", int64(h.emptying))
 	res.Count("requests", int64(len(h.log)))
 	h.mu.Unlock()
 	res.Count("hook_merge_committed", hookN)
